@@ -434,6 +434,27 @@ func runC14(pl *plan.Plan, out *plan.Outcome) {
 				out.Add("c14.refresh_bursts_checked", 1)
 			}
 		}
+	}
+	if udp && !bgFailedAt.IsZero() {
+		// (4b) A refresh pass that hit a write error cannot retransmit everything. The one excuse for
+		// templates missing from an interval is that the exporting process is closed (so that the
+		// application's next send fails instead of going out next to stale collector state): after
+		// the failed write nothing more may be written and no later send may succeed.
+		for i, w := range pw {
+			if w.At.After(bgFailedAt) && w.Err == nil {
+				env.Violate("refresh-error-swallowed", "", "a datagram of the template refresh at +%v failed to be written, yet the exporting process went on: wire message %d (by %s) was written %v later", bgFailedAt.Sub(tInit), i, w.By, w.At.Sub(bgFailedAt))
+				break
+			}
+		}
+		for ci, c := range s.calls {
+			if c.T0.After(bgFailedAt.Add(time.Millisecond)) && c.Err == nil {
+				env.Violate("refresh-error-swallowed", "", "a datagram of the template refresh at +%v failed to be written, yet call %d (%s) invoked %v later returned success", bgFailedAt.Sub(tInit), ci, c.Kind, c.T0.Sub(bgFailedAt))
+				break
+			}
+		}
+	}
+	if udp {
+		// nothing more for UDP
 	} else if !peerClosedAt.IsZero() {
 		// (5) after a collector-side close, sends invoked later than close + interval fail
 		iv := time.Duration(cfgOr(pl, "check_ms", 0)) * time.Millisecond
